@@ -215,6 +215,27 @@ impl Prop for C05 {
     }
     fn gen(&self, seed: u64, _tier: Tier) -> Case {
         let mut r = Rng::new(seed);
+        if r.chance(20) {
+            // 'vk-collide' population: while a tap-hold-release-keys / tap-hold-except-keys key is
+            // undecided a macro taps a virtual key whose index equals the key code of a listed key.
+            // Virtual keys live in another row: that is not the listed key being pressed.
+            let v = *r.pick(&["tap-hold-release-keys", "tap-hold-except-keys"]);
+            let h = 200u64;
+            let mut case = Case { prop: "C05".into(), seed, ..Default::default() };
+            let idx = oscode_of("b");
+            case.cfg = format!(
+                "(defsrc a b c)\n(defvirtualkeys {})\n(deflayer l0 ({v} 0 {h} x y (b)) 1 (macro {} (on-press tap-vkey v{idx})))\n",
+                (0..=idx).map(|i| format!("v{i} XX")).collect::<Vec<_>>().join(" "),
+                r.range(20, 60)
+            );
+            let (a, c) = (oscode_of("a"), oscode_of("c"));
+            case.ops = vec![Op::Gap(2), Op::Press(c), Op::Gap(3), Op::Release(c), Op::Gap(r.range(2, 10) as u32), Op::Press(a), Op::Gap((h + 100) as u32), Op::Release(a), Op::Gap(300)];
+            case.set("pop", "vk-collide");
+            case.set("min_ops", 0);
+            case.set("min_cfg", 0);
+            case.set("min_gaps", 0);
+            return case;
+        }
         if r.chance(40) {
             // 'queued-second' population: a second tap-hold key is pressed (and possibly released)
             // while the first one is still undecided, so its press waits in the queue. How long
@@ -454,6 +475,33 @@ impl Prop for C05 {
         }
         if case.param("pop") == Some("queued-second") {
             return check_queued_second(case, want_sample);
+        }
+        if case.param("pop") == Some("vk-collide") {
+            let mut st = match Stepper::new_filtered(&case.cfg, &case.files, Mode::Ticking) {
+                Ok(s) => s,
+                Err(_) => return RunOut::skip("parser-rejected"),
+            };
+            st.run_ops(&case.ops);
+            st.gap(300);
+            st.finish();
+            let outs = st.trace.outs.clone();
+            let mut o = RunOut::pass();
+            o.sim_ms = st.trace.sim_ms;
+            o.count("pop.vk-collide", 1);
+            o.sig = fnv(fnv(0, case.cfg.as_bytes()), ops_short(&case.ops).as_bytes());
+            let n = |k: &str| outs.iter().filter(|e| e.kind == OutKind::Press && e.key == k).count();
+            o.nontrivial = n("X") + n("Y") > 0;
+            if !st.down_set().is_empty() {
+                o.set_fail("C05:stuck-after-release", format!("keys still down at the end: {}", outs_short(&outs)), vec![]);
+            } else if (n("X"), n("Y")) != (0, 1) {
+                // no physical key other than the tap-hold key was pressed while it was held (300 ms):
+                // hold (tap-hold-except-keys: at the release)
+                o.set_fail("C05:virtual-key-taken-for-listed-key", format!("held for 300 ms with no other physical key pressed: expected the hold action once, got {} tap + {} hold: {}", n("X"), n("Y"), outs_short(&outs)), vec![]);
+            }
+            if want_sample {
+                o.sample = Some(sample_json(case, &outs, serde_json::json!({"pop": "vk-collide"})));
+            }
+            return o;
         }
         if !history_consistent(&case.ops) {
             return RunOut::skip("history-not-consistent");
